@@ -10,7 +10,6 @@ import (
 	"regexp"
 	"sort"
 	"strings"
-	"time"
 
 	"github.com/wader/fq/internal/verif/core"
 	"github.com/wader/fq/internal/verif/fqrun"
@@ -162,10 +161,8 @@ func (rn *runner) flush(pub bool) {
 	if len(cs) == 0 {
 		return
 	}
-	tq := time.Now()
 	outs, err := rn.evalBatch(pub, cs)
-	rn.r.Count("dev_jq_us", time.Since(tq).Microseconds())
-	rn.r.Count("dev_jq_n", int64(len(cs)))
+	rn.r.Count("jq_evaluations", int64(len(cs)))
 	rn.r.Eval(int64(len(cs)))
 	if err == nil && len(outs) == len(cs) {
 		for i, c := range cs {
@@ -235,7 +232,7 @@ func (rn *runner) describe(vc *valCase, e enc) string {
 
 // value runs every evaluation of one source value.
 func (rn *runner) value(vc *valCase) {
-	set := rn.sp.encs(vc.v, vc.m)
+	set := rn.sp.encSet(vc.v, vc.m)
 	n := set.Count()
 	rn.r.Count("values", 1)
 	rn.r.Count("encodings:"+rn.sp.name, int64(n))
@@ -252,7 +249,7 @@ func (rn *runner) value(vc *valCase) {
 func (rn *runner) one(vc *valCase, idx int, e enc, only *Case) {
 	sp := rn.sp
 	small := vc.v.Nodes() <= 2
-	base := Case{Format: sp.name, Value: vc.v, Full: vc.m.full, Sum: vc.m.sum, Enc: idx, Label: e.L}
+	base := Case{Format: sp.name, Value: vc.v, Full: vc.m.full, Sum: vc.m.sum, Canon: vc.m.canon, Enc: idx, Label: e.L}
 	want := func(kind, driver string) bool {
 		return only == nil || (only.Kind == kind && only.Driver == driver)
 	}
@@ -261,7 +258,8 @@ func (rn *runner) one(vc *valCase, idx int, e enc, only *Case) {
 
 	// intact
 	drivers := []string{"fast"}
-	if small || !sp.binary {
+	if small && len(e.B) <= 4096 {
+		// the documented from_F as well (the fast driver is its body without the registry lookup)
 		drivers = []string{"fast", "public"}
 	}
 	if !sp.binary {
@@ -276,6 +274,7 @@ func (rn *runner) one(vc *valCase, idx int, e enc, only *Case) {
 		if nontrivial {
 			rn.r.Nontrivial(key + "|intact")
 		}
+		rn.r.Count("jq:intact:"+drv, 1)
 		rn.submit(drv == "public", &jqCase{in: e.B, opts: e.Opts, kind: kIntact, done: func(res map[string]any, p string) {
 			rn.checkIntact(vc, e, c, res, p)
 		}})
@@ -297,9 +296,7 @@ func (rn *runner) one(vc *valCase, idx int, e enc, only *Case) {
 				c := c
 				c.Driver = "go"
 				rn.r.Nontrivial(key + fmt.Sprintf("|prefix%d", p))
-				tg := time.Now()
 				err, pan := rn.goDecode(pre)
-				rn.r.Count("dev_go_us", time.Since(tg).Microseconds())
 				rn.r.Eval(1)
 				rn.r.Count("truncations", 1)
 				rn.checkPrefix(vc, e, c, pre, err != nil, fmt.Sprint(err), pan)
@@ -310,6 +307,7 @@ func (rn *runner) one(vc *valCase, idx int, e enc, only *Case) {
 				c.Driver = "public"
 				rn.r.Nontrivial(key + fmt.Sprintf("|prefix%d", p))
 				rn.r.Count("truncations", 1)
+				rn.r.Count("jq:prefix:public", 1)
 				rn.submit(true, &jqCase{in: pre, opts: e.Opts, kind: kPrefix, done: func(res map[string]any, pan string) {
 					_, isErr := res["derr"]
 					rn.checkPrefix(vc, e, c, pre, isErr, fmt.Sprint(res["derr"]), pan)
@@ -325,7 +323,7 @@ func (rn *runner) one(vc *valCase, idx int, e enc, only *Case) {
 
 func (rn *runner) trailing(vc *valCase, idx int, e enc, only *Case) {
 	sp := rn.sp
-	base := Case{Format: sp.name, Value: vc.v, Full: vc.m.full, Sum: vc.m.sum, Enc: idx, Label: e.L}
+	base := Case{Format: sp.name, Value: vc.v, Full: vc.m.full, Sum: vc.m.sum, Canon: vc.m.canon, Enc: idx, Label: e.L}
 	key := sp.name + "|" + vc.v.String() + "|" + e.L
 	var intact *goTree
 	for _, tk := range []string{"trailing-00", "trailing-value"} {
@@ -367,7 +365,7 @@ func (rn *runner) trailing(vc *valCase, idx int, e enc, only *Case) {
 		if !sp.binary {
 			drv = "public"
 		}
-		if !vc.trailAll && only == nil {
+		if (!vc.trailAll || len(in) > 4096) && only == nil {
 			continue
 		}
 		if only != nil && (only.Kind != tk || only.Driver != drv) {
@@ -376,6 +374,7 @@ func (rn *runner) trailing(vc *valCase, idx int, e enc, only *Case) {
 		c := base
 		c.Kind, c.Driver = tk, drv
 		rn.r.Count("trailing", 1)
+		rn.r.Count("jq:trailing:"+drv, 1)
 		rn.submit(drv == "public", &jqCase{in: in, opts: e.Opts, kind: kTrailing, n: len(e.B), done: func(res map[string]any, p string) {
 			rn.checkTrailing(vc, e, c, in, res, p)
 		}})
